@@ -464,4 +464,89 @@ theorem dropLinks_none (ord : List Nat) (p : Entry → Bool) (s : MState) :
     | false => rfl
     | true => exact absurd (List.any_eq_true.mpr ⟨e, he, hp⟩) hany
 
+/-! ### what a synchronised dataset reads -/
+
+theorem curLinks_scan (s : MState) (ord : List Nat) :
+    ∀ l, l ∈ curLinks s ↔ l ∈ scanList ord (effLinks s.ext) :=
+  fun l => (mem_scanList ord (effLinks s.ext) l).symm
+
+theorem synced_read_eq {s : MState} {D : DSet} {ord : List Nat}
+    (hc : D.cache = discoverLinks D.comps (scanList ord (effLinks s.ext)))
+    (hf : D.fuel = (scanList ord (effLinks s.ext)).length + 1) :
+    readCid s D = installedVal D.comps (ownVal s.vals) applyFn (scanList ord (effLinks s.ext))
+      (discoverLinks D.comps (scanList ord (effLinks s.ext))) := by
+  funext c
+  simp only [readCid, installedVal, hc, hf]
+
+theorem synced_specOk {s : MState} (hS : Synced s) {D : DSet} (hD : D ∈ s.dsets) (c : Cid) :
+    specOkAt D.comps (curLinks s) (ownVal s.vals) applyFn (readCid s D) c = true := by
+  obtain ⟨ord, hc, hf⟩ := hS D hD
+  rw [synced_read_eq hc hf]
+  exact discover_specOkAt D.comps (curLinks s) _ (curLinks_scan s ord) (ownVal s.vals) applyFn c
+
+theorem synced_derivable {s : MState} (hS : Synced s) {D : DSet} (hD : D ∈ s.dsets) (c : Cid) :
+    isDerivable D c = true ↔ (Reachable D.comps (curLinks s) c ∧ c ∉ D.comps) := by
+  obtain ⟨ord, hc, _⟩ := hS D hD
+  have hF := discover_fix D.comps (scanList ord (effLinks s.ext))
+  unfold isDerivable
+  rw [hc, fix_via_isSome hF c, fix_reachable hF c]
+  constructor
+  · rintro ⟨h1, h2⟩
+    exact ⟨reachable_congr (fun l => (curLinks_scan s ord l).symm) h1, h2⟩
+  · rintro ⟨h1, h2⟩
+    exact ⟨reachable_congr (curLinks_scan s ord) h1, h2⟩
+
+theorem synced_readable {s : MState} (hS : Synced s) {D : DSet} (hD : D ∈ s.dsets) (c : Cid) :
+    (readCid s D c).isSome = true ↔ Reachable D.comps (curLinks s) c := by
+  obtain ⟨ord, hc, hf⟩ := hS D hD
+  have hF := discover_fix D.comps (scanList ord (effLinks s.ext))
+  have hN : ∀ c d, get (discoverLinks D.comps (scanList ord (effLinks s.ext))).depth c = some d →
+      d + 1 ≤ (scanList ord (effLinks s.ext)).length + 1 + 1 :=
+    fun c d h => by
+      have := discover_depth_le_length D.comps (scanList ord (effLinks s.ext)) c d h
+      omega
+  have := fix_installed_isSome hF (ownVal s.vals) applyFn _ hN c
+  simp only [readCid, hc, hf]
+  rw [this]
+  constructor
+  · exact reachable_congr (fun l => (curLinks_scan s ord l).symm)
+  · exact reachable_congr (curLinks_scan s ord)
+
+theorem synced_minVal {s : MState} (hS : Synced s) {D : DSet} (hD : D ∈ s.dsets) (c : Cid) (v : Val)
+    (hv : readCid s D c = some v) :
+    MinVal D.comps (curLinks s) (ownVal s.vals) applyFn c v := by
+  have hr : Reachable D.comps (curLinks s) c := (synced_readable hS hD c).mp (by simp [hv])
+  obtain ⟨k, hk⟩ := reachable_derivLe hr
+  exact specOk_minVal D.comps (curLinks s) (ownVal s.vals) applyFn (readCid s D)
+    (fun c => synced_specOk hS hD c) k c v hk hv
+
+/-! ### post-conditions of the two removal handlers -/
+
+theorem removeComp_forgets (ord : List Nat) (s : MState) (d : Nat) (c : Cid) (D : DSet)
+    (hf : findDs s.dsets d = some D) (hc : c ∈ D.comps) :
+    ∀ e ∈ (step ord s (.removeComp d c)).1.ext, e.mentions c = false := by
+  simp only [step, hf, hc, if_true]
+  rw [sync_ext]
+  exact dropLinks_none ord _ _
+
+theorem remove_forgets (ord : List Nat) (s : MState) (d : Nat) :
+    ∀ e ∈ (step ord s (.remove d)).1.ext, ∀ D ∈ s.dsets, D.id = d → ∀ c ∈ D.comps,
+      e.mentions c = false := by
+  intro e he D hD hid c hc
+  simp only [step] at he
+  split at he
+  · rename_i hemp
+    have : D ∈ List.filter (fun X => X.id == d) s.dsets := List.mem_filter.mpr ⟨hD, by simp [hid]⟩
+    simp only [List.isEmpty_iff] at hemp
+    rw [hemp] at this; cases this
+  · have := dropLinks_none ord _ _ e he
+    cases hm : e.mentions c with
+    | false => rfl
+    | true =>
+      have h2 : (List.filter (fun X => X.id == d) s.dsets).any
+          (fun D => D.comps.any (fun x => e.mentions x)) = true :=
+        List.any_eq_true.mpr ⟨D, List.mem_filter.mpr ⟨hD, by simp [hid]⟩,
+          List.any_eq_true.mpr ⟨c, hc, hm⟩⟩
+      rw [h2] at this; cases this
+
 end GlueVerif.Lemmas.C03
